@@ -272,8 +272,11 @@ class DiskStorage(QueueStorage):
                 logging.log_exception(__name__, queue_id=id)
 
     def get(self, id):
-        meta = self.ops.read_meta(id)
-        env = self.ops.read_env(id)
+        try:
+            meta = self.ops.read_meta(id)
+            env = self.ops.read_env(id)
+        except FileNotFoundError:
+            raise KeyError(id)
         delivered_rcpts = meta.get('delivered_indexes', [])
         self._remove_merged_delivered_rcpts(env, delivered_rcpts)
         return env, meta['attempts']
